@@ -27,6 +27,18 @@ pub struct Member {
     pub as_fake: Vec<(&'static str, Box<dyn Fn() -> (FuncPtr, CallCountVerifier)>)>,
 }
 
+/// types whose names differ only in their module path
+pub mod ma {
+    #[derive(Clone, Copy)]
+    pub struct Rs(pub i64);
+    pub struct Cfg(pub u8);
+}
+pub mod mb {
+    #[derive(Clone, Copy)]
+    pub struct Rs(pub i64);
+    pub struct Cfg(pub u8);
+}
+
 macro_rules! plain_member {
     ($v:ident, $class:expr, $label:expr, $lt:expr, $tgt:ident, $rep:ident, ($($an:ident : $at:ty),*) -> $ret:ty, $tv:expr, $rv:expr, $cl:expr) => {{
         #[inline(never)]
@@ -79,6 +91,13 @@ pub fn family() -> Vec<Member> {
     // nested fn types in the signature
     plain_member!(v, 15, "fn(i32, fn(&u8) -> i64) -> i64", false, t15, r15, (a: i32, b: fn(&u8) -> i64) -> i64, 1015, 2015, |_a: i32, _b: fn(&u8) -> i64| -> i64 { 2015 });
     plain_member!(v, 16, "fn(i32, &u8) -> fn(i32) -> i64", false, t16, r16, (a: i32, b: &u8) -> fn(i32) -> i64, (|_x: i32| -> i64 { 1016 }) as fn(i32) -> i64, (|_x: i32| -> i64 { 2016 }) as fn(i32) -> i64, |_a: i32, _b: &u8| -> fn(i32) -> i64 { |_x: i32| -> i64 { 2016 } });
+    // same final identifier, different module path: different types
+    plain_member!(v, 24, "fn(i32, &u8) -> ma::Rs", false, t24, r24, (a: i32, b: &u8) -> ma::Rs, ma::Rs(1024), ma::Rs(2024), |_a: i32, _b: &u8| -> ma::Rs { ma::Rs(2024) });
+    plain_member!(v, 25, "fn(i32, &u8) -> mb::Rs", false, t25, r25, (a: i32, b: &u8) -> mb::Rs, mb::Rs(1025), mb::Rs(2025), |_a: i32, _b: &u8| -> mb::Rs { mb::Rs(2025) });
+    plain_member!(v, 26, "fn(i32, &ma::Cfg) -> i64", false, t26, r26, (a: i32, b: &ma::Cfg) -> i64, 1026, 2026, |_a: i32, _b: &ma::Cfg| -> i64 { 2026 });
+    plain_member!(v, 27, "fn(i32, &mb::Cfg) -> i64", false, t27, r27, (a: i32, b: &mb::Cfg) -> i64, 1027, 2027, |_a: i32, _b: &mb::Cfg| -> i64 { 2027 });
+    plain_member!(v, 28, "fn(i32, &u8) -> std::fmt::Result", false, t28, r28, (a: i32, b: &u8) -> std::fmt::Result, Ok(()), Err(std::fmt::Error), |_a: i32, _b: &u8| -> std::fmt::Result { Err(std::fmt::Error) });
+    plain_member!(v, 29, "fn(i32, &u8) -> std::io::Result<()>", false, t29, r29, (a: i32, b: &u8) -> std::io::Result<()>, Ok(()), Ok(()), |_a: i32, _b: &u8| -> std::io::Result<()> { Ok(()) });
     // lifetime re-spellings of the base (same structure; exercised, not judged)
     plain_member!(v, 0, "for<'a> fn(i32, &'a u8) -> i64", true, t17, r17, (a: i32, b: &u8) -> i64, 1017, 2017, |_a: i32, _b: &u8| -> i64 { 2017 });
     {
@@ -349,6 +368,47 @@ pub fn run_c09(ctx: &Ctx) {
     async_pair!("opt~opt", true, as_opt, Option<u32>, Some(1u32), Option<u32>);
     async_pair!("opt~u32", false, as_opt, Option<u32>, 1u32, u32);
     async_pair!("opt~opt-i32", false, as_opt, Option<u32>, Some(1i32), Option<i32>);
+    // a hand-written poll function given to the checked async installer: only `fn() -> Poll<T>` with the right T fits
+    {
+        use std::task::Poll;
+        #[inline(never)]
+        fn p_ok() -> Poll<u32> {
+            Poll::Ready(9)
+        }
+        #[inline(never)]
+        fn p_arg(_a: u64) -> Poll<u32> {
+            Poll::Ready(9)
+        }
+        #[inline(never)]
+        fn p_mutref(_a: &mut u32) -> Poll<u32> {
+            Poll::Ready(9)
+        }
+        #[inline(never)]
+        unsafe fn p_unsafe() -> Poll<u32> {
+            Poll::Ready(9)
+        }
+        #[inline(never)]
+        extern "C" fn p_c() -> Poll<u32> {
+            Poll::Ready(9)
+        }
+        #[inline(never)]
+        fn p_u64() -> Poll<u64> {
+            Poll::Ready(9)
+        }
+        let shapes: Vec<(&str, bool, Box<dyn Fn() -> FuncPtr>)> = vec![
+            ("fn()->Poll<u32>", true, Box::new(|| injectorpp::func!(p_ok, fn() -> Poll<u32>))),
+            ("fn(u64)->Poll<u32>", false, Box::new(|| injectorpp::func!(p_arg, fn(u64) -> Poll<u32>))),
+            ("fn(&mut u32)->Poll<u32>", false, Box::new(|| injectorpp::func!(p_mutref, fn(&mut u32) -> Poll<u32>))),
+            ("unsafe fn()->Poll<u32>", false, Box::new(|| injectorpp::func!(p_unsafe, unsafe fn() -> Poll<u32>))),
+            ("extern C fn()->Poll<u32>", false, Box::new(|| injectorpp::func!(p_c, extern "C" fn() -> Poll<u32>))),
+            ("fn()->Poll<u64>", false, Box::new(|| injectorpp::func!(p_u64, fn() -> Poll<u64>))),
+            ("closure fn(u64)->Poll<u32>", false, Box::new(|| injectorpp::closure!(|_a: u64| -> Poll<u32> { Poll::Ready(9) }, fn(u64) -> Poll<u32>))),
+        ];
+        for (name, same, mk) in shapes.iter() {
+            judge(idx, format!("async-poll-shape/{}", name), *same, false, format!("async u32 <- {}", name), None, &mut |inj| inj.when_called_async(injectorpp::async_func!(as_u32(), u32)).will_return_async(mk()), &mut accepted, &mut refused, &mut by_msg, &mut lifetime_outcomes);
+            idx += 1;
+        }
+    }
     // typed async target with an unchecked value and vice versa
     judge(idx, "async/typed+unchecked-return".into(), false, false, "async u32 <- unchecked".into(), None, &mut |inj| inj.when_called_async(injectorpp::async_func!(as_u32(), u32)).will_return_async(unsafe { injectorpp::async_return_unchecked!(5u32, u32) }), &mut accepted, &mut refused, &mut by_msg, &mut lifetime_outcomes);
     idx += 1;
